@@ -266,7 +266,7 @@ def execute(case, ctx):
                 ls[i] = ls[i][:j] + f['ch'] + ls[i][j + 1:]
             elif place == 'crc' and crc_idx:
                 i = crc_idx[-1]
-                j = 1 + int(f['pos'] * 4) % 4
+                j = int(f['pos'] * 5) % 5            # the '=' that marks the line, or one of the four checksum characters
                 if ls[i][j] == f['ch']:
                     continue
                 ls[i] = ls[i][:j] + f['ch'] + ls[i][j + 1:]
@@ -310,7 +310,8 @@ def execute(case, ctx):
             if any('crc24' in str(x.message).lower() for x in wl):
                 ctx.probe('f6_crc_warning')
                 continue
-            if out3 == raw:
+            if out3 == raw and place != 'crc':
+                # a changed character that only touches the unused low bits of the last base64 group
                 ctx.probe('f6_same_payload')
                 continue
             ctx.viol('C10:corruption-unreported:%s' % place,
